@@ -35,6 +35,33 @@ CLAIMED = {
     technique="contract-based deductive verification: refinement of each real function against a spec function + lemmas over "
               "contracts, z3 QF_BV",
     note=TB + "; partition tables in contracts/address.py are transcribed from the property statement and trusted"),
+ "C01": dict(
+    category="proof",
+    text="Command.from_frame is executed symbolically (real AST) for a fully symbolic 16-bit frame under any integer device "
+         "type, a fully symbolic 24-bit frame with no map and with a map resolving to None or to any integer, and frames of "
+         "symbolic length 1..64; on every one of the ~11k feasible paths (the registry lookups fork over all live classes) it "
+         "is proved that no exception escapes, the result is a Command whose frame is a ForwardFrame with the same width and "
+         "bits, str() of it terminates without exception, the input frame is unchanged and no object that existed before "
+         "the call (registries, map, frame) is stored to.",
+    design_ref="DESIGN.md 6 (C01)",
+    technique="contract-based deductive verification: symbolic execution of the real decode paths against Frame/Address "
+              "contracts, postconditions from the property, z3 QF_BV",
+    note=TB + "; command-layer bodies (from_frame/__init__/__str__ of the 14 implementations) are inlined, Frame/Address/"
+         "Instance/DeviceInstanceTypeMapper.get_type are used through contracts; text content not specified; frames > 64 bits "
+         "not covered"),
+ "C02": dict(
+    category="proof",
+    text="For each of the live command/event classes (taken from the registry at run time) and each legal argument family "
+         "(every destination kind, instance kind, parameter, event scheme and event data, all numbers symbolic) the real "
+         "constructor followed by the real decoder is executed symbolically and the decoded object is proved to be of the same "
+         "class with a structurally identical attribute map, and str() total; for every illegal family (out-of-range on both "
+         "sides, wrong address kind, wrong type, wrong arity, forbidden event field combinations, oversized event data) the "
+         "constructor is proved to raise. An exhaustive registry check ensures no class is skipped.",
+    design_ref="DESIGN.md 6 (C02)",
+    technique="contract-based deductive verification: decode-after-encode lemma per class executed on the real code against "
+              "Frame/Address contracts, z3 QF_BV",
+    note=TB + "; constructor and decoder bodies are inlined per class, Frame/Address/Instance through contracts; same text is "
+         "derived from structural equality, not proved on strings"),
 }
 
 NA_REASON = "check under construction in this round (no obligations built yet); see DESIGN.md section 6"
